@@ -7,5 +7,5 @@ Definition genreset_call_sites : list string := ["internal/validator/test_utils.
 Definition sk_genvar : string := "return call Sprintf, call AddInt64".
 Definition sk_get_map_keys : string := "call Map; if err != nil { return }; call make; for { if pending { call append; call delete } }; return".
 Definition sk_yaml_get : string := "if y.data != nil && y.data.Kind == yaml.MappingNode { for { if k.Kind == yaml.ScalarNode && k.Value == key { return } } }; return".
-Definition sk_iri_expander_from : string := "call make; call len; range profile.Prefixes {  }; call MergeObjectMap; return".
+Definition sk_iri_expander_from : string := "call make; call MergeObjectMap; range profile.Prefixes {  }; return".
 Definition normalize_options : list string := ["NewJsonLdOptions("""")"; "Flatten(json, context, options)"].
